@@ -368,3 +368,9 @@ func init() {
 	mutant("status-999-becomes-500", "text-primitives", "strings.go", "	if code < 100 || code > 999 {", "	if code < 100 || code >= 999 {")
 	mutant("status-table-short", "text-primitives", "strings.go", "	for i := 100; i < 1000; i++ {", "	for i := 101; i < 1000; i++ {")
 }
+
+func init() {
+	mutant("server-without-defaults", "server-construction", "configure.go", "	s2.cnf.defaults()\n", "")
+	mutant("configure-server-skips-defaults", "server-construction", "configure.go", "	cnf.defaults()\n\n	s2 := &Server{", "	s2 := &Server{")
+	mutant("preface-partial-accepted", "server-construction", "http2.go", "	if err == nil && n == prefaceLen {", "	if err == nil || n == prefaceLen {")
+}
